@@ -4,9 +4,9 @@
    Spec/Layouts.v applied to the payload bits: every integer, flag and identifier is the slice
    at its specified offset and width (so it cannot depend on any neighbouring field), and
    [C04_field_roundtrip] says that a value encoded at a position between arbitrary
-   neighbours is read back exactly.  Type 15 is proved for its three specification-legal forms (88, 110, 160 bits). *)
+   neighbours is read back exactly.  Type 15 is proved at every length ([C04_type15]) and for its three specification-legal forms (88, 110, 160 bits). *)
 From Ais Require Import Model.Base Model.Enums Model.Fields Model.Messages Model.Unarmor Model.Sentence
-  Spec.Layouts Proofs.Bits Proofs.Reads Proofs.Layouts Proofs.Dispatch Proofs.MsgLevel.
+  Spec.Layouts Proofs.Bits Proofs.Reads Proofs.Layouts Proofs.Dispatch Proofs.MsgLevel Proofs.Interrogation.
 From Ais Require Import Spec.Grammar Spec.Armor Proofs.EndToEnd Proofs.UnarmorProof.
 From Coq Require Import Lia.
 Local Open Scope N_scope.
@@ -153,6 +153,11 @@ Theorem C04_type24 :
 Proof. intros c q bs Ht H40 Hl. pose proof (msg_type24 c q bs Ht H40) as H. destruct (Nat.leb_spec (static_data_min bs) (length bs)); [exact H|lia]. Qed.
 Print Assumptions C04_type24.
 
+Theorem C04_type15 :
+  forall c q bs, sl bs 0 6 = 15 ->
+    parse_bits c q bs = match interrogation_of bs with Some (m, _) => Ok (Interrogation m) | None => Err ENmea end.
+Proof. exact msg_type15_any. Qed.
+Print Assumptions C04_type15.
 Theorem C04_type15_one_request :
   forall c q bs, sl bs 0 6 = 15 -> length bs = 88%nat -> parse_bits c q bs = Ok (Interrogation (interrogation_88 bs)).
 Proof. exact msg_type15_88. Qed.
